@@ -63,26 +63,23 @@ Proof.
   destruct a, b; cbn in *. subst. reflexivity.
 Qed.
 
-Definition bools : list bool := [false; true].
-Definition all_params : list params :=
-  flat_map (fun a => flat_map (fun b => flat_map (fun c => flat_map (fun d => map (fun e =>
-    {| p_expire := a; p_will := b; p_delay := c; p_clean := d; p_selfended := e |}) bools) bools) bools) bools) bools.
+(* the configurations reachable for one parameter combination (11 instructions in total: 12 rounds suffice) *)
+Definition reach_p (p : params) : list (cfg tstate instr) := explore _ _ exec beq_cfg 2 12 [takeover_threads p].
 
-(* 11 instructions in total: 12 rounds suffice *)
-Definition reachable : list (cfg tstate instr) := explore _ _ exec beq_cfg 2 12 (map takeover_threads all_params).
+Lemma reach_closed p : closed _ _ exec beq_cfg 2 (reach_p p) = true.
+Proof. destruct p as [[] [] [] [] []]; vm_compute; reflexivity. Qed.
 
-Lemma reachable_closed : closed _ _ exec beq_cfg 2 reachable = true.
-Proof. vm_compute. reflexivity. Qed.
-
-Lemma reachable_init p : mem _ _ beq_cfg (takeover_threads p) reachable = true.
+Lemma reach_init p : mem _ _ beq_cfg (takeover_threads p) (reach_p p) = true.
 Proof. destruct p as [[] [] [] [] []]; vm_compute; reflexivity. Qed.
 
 Lemma all_schedules (P : cfg tstate instr -> bool) :
-  forallb P reachable = true -> forall p sched, P (run_takeover p sched) = true.
+  (forall p, forallb P (reach_p p) = true) -> forall p sched, P (run_takeover p sched) = true.
 Proof.
   intros F p sched. unfold run_takeover.
-  apply (run_all _ _ exec beq_cfg beq_cfg_ok 2 reachable P (takeover_threads p) reachable_closed (reachable_init p) F).
+  apply (run_all _ _ exec beq_cfg beq_cfg_ok 2 (reach_p p) P (takeover_threads p) (reach_closed p) (reach_init p) (F p)).
 Qed.
+
+Ltac all_params := let p := fresh "p" in intro p; destruct p as [[] [] [] [] []]; vm_compute; reflexivity.
 
 Definition pA (ex w d cl se : bool) : params :=
   {| p_expire := ex; p_will := w; p_delay := d; p_clean := cl; p_selfended := se |}.
@@ -96,7 +93,7 @@ Theorem new_registered_modulo : forall p sched,
 Proof.
   intros p sched K.
   pose proof (all_schedules (fun c => deleted_new (shared c) || new_registered c)) as A.
-  specialize (A ltac:(vm_compute; reflexivity) p sched). cbv beta in A.
+  specialize (A ltac:(all_params) p sched). cbv beta in A.
   unfold KF_C14_stale_takenover_check in K. rewrite K in A. exact A.
 Qed.
 
@@ -109,13 +106,13 @@ Theorem will_cancelled_modulo : forall p sched,
 Proof.
   intros p sched K.
   pose proof (all_schedules (fun c => late_add (shared c) || will_cancelled c)) as A.
-  specialize (A ltac:(vm_compute; reflexivity) p sched). cbv beta in A.
+  specialize (A ltac:(all_params) p sched). cbv beta in A.
   unfold KF_C16_late_will_registration in K. rewrite K in A. exact A.
 Qed.
 
 (* for every interleaving: a will without delay is published at most once, exactly once when A's handler is through *)
 Theorem will_once_all : forall p sched, will_once (run_takeover p sched) = true.
-Proof. apply all_schedules. vm_compute. reflexivity. Qed.
+Proof. apply all_schedules. all_params. Qed.
 
 (* non-vacuity: the order "A's teardown completely before B" meets everything *)
 Example takeover_sequential :
